@@ -1,6 +1,6 @@
 """C20 - a failed or interrupted solve leaves the process and the problem intact."""
 import sys, warnings
-from .. import schedrun, histrun, common, scenario, concrete, recorder
+from .. import schedrun, histrun, common, scenario, concrete, recorder, tlc, tlaparse
 from ..common import pviolation, bump
 from .c13 import validate_traces
 
@@ -113,7 +113,132 @@ def stage_chunk(idx, items):
     return part
 
 
+# ---- the recursion limit around solves (RecLimit.tla) ------------------------------------------
+class _Interrupt(BaseException):
+    pass
+
+
+def reclimit_replay(h):
+    """Run one behaviour of RecLimit.tla: nested `with increased_recursion_limit(N)` blocks (fresh objects) and calls of a
+    routine decorated with ONE kept increased_recursion_limit(N) object, with solves inside.  -> None or a description."""
+    import optyx
+    from optyx import increased_recursion_limit
+    base = sys.getrecursionlimit()
+    raised = base + 700
+    shared = increased_recursion_limit(raised)
+    trouble = []
+
+    def solve(outcome):
+        x = optyx.Variable('x', lb=-4, ub=4)
+        y = optyx.Variable('y', lb=-4, ub=4)
+        p = optyx.Problem().minimize((x - 1) ** 2 + (y + 0.5) ** 2 + optyx.exp(0.1 * x))
+        calls = [0]
+
+        def cb(*a, **k):
+            calls[0] += 1
+            if outcome == 'failed':
+                raise ValueError('injected')
+            if outcome == 'raises':
+                raise _Interrupt()
+        import warnings
+        with warnings.catch_warnings():
+            warnings.simplefilter('ignore')
+            if outcome == 'ok':
+                s = p.solve(method='L-BFGS-B')
+                if s.status.value != 'optimal':
+                    trouble.append('plain solve inside the block is %s' % s.status.value)
+            else:
+                s = p.solve(method='L-BFGS-B', callback=cb)
+                if outcome == 'failed' and s.status.value != 'failed':
+                    trouble.append('a callback raising ValueError gives status %s' % s.status.value)
+
+    def level(i, depth):
+        """Interpret h from position i inside `depth` open blocks; returns the position after this block's Exit."""
+        while i < len(h):
+            op, arg = h[i]
+            want = raised if depth > 0 else base
+            if sys.getrecursionlimit() != want:
+                trouble.append('limit %d at depth %d before %s (expected %d)' % (sys.getrecursionlimit(), depth, op, want))
+            if op == 'Enter':
+                if arg == 'fresh':
+                    with increased_recursion_limit(raised):
+                        i = level(i + 1, depth + 1)
+                else:
+                    @shared
+                    def routine():
+                        return level(i + 1, depth + 1)
+                    i = routine()
+            elif op == 'Exit':
+                return i + 1
+            else:
+                solve(arg)
+                i += 1
+        return i
+    hook0 = __import__('warnings').showwarning
+    try:
+        level(0, 0)
+    except _Interrupt:
+        pass
+    finally:
+        after = sys.getrecursionlimit()
+        sys.setrecursionlimit(base)
+    if after != base:
+        return 'recursion limit is %d after every block was left (was %d before)' % (after, base)
+    if __import__('warnings').showwarning is not hook0:
+        return 'warnings.showwarning not restored'
+    if trouble:
+        return trouble[0]
+    return None
+
+
+def reclimit_chunk(idx, hists):
+    part = {'violations': {}, 'counts': {}, 'evaluations': 0, 'traces_validated_against_impl': 0, 'nontrivial': set(),
+            'samples': [], 'extra': {}}
+    for h in hists:
+        d = reclimit_replay(h)
+        part['evaluations'] += len(h)
+        part['traces_validated_against_impl'] += 1
+        text = ' ; '.join('%s(%s)' % (o, a) if a else o for o, a in h)
+        part['nontrivial'].add(text)
+        if d:
+            shape = '/'.join(a for o, a in h if o == 'Enter')
+            outs = '/'.join(sorted(set(a for o, a in h if o == 'Solve')))
+            pviolation(part, 'increased_recursion_limit{%s}{solves: %s}' % (shape, outs), d.split(' (')[0].split(' at depth')[0], {'behaviour': text, 'detail': d})
+        if len(part['samples']) < 1:
+            part['samples'].append({'behaviour': text})
+    return part
+
+
+def reclimit_histories(report, tier):
+    wd = tlc.workdir()
+    try:
+        r = tlc.run('RecLimit', wd=wd, dump=True, overrides={'MaxOps': 6 if tier == 'quick' else 7})
+        report.add_tlc(r)
+        hs = set()
+        for txt in tlaparse.iter_states(r.dump):
+            st = tlaparse.parse_state(txt)
+            h = tuple(tuple(x) for x in st['hist'])
+            if h and not st['stack'] and any(o == 'Enter' for o, _ in h) and any(o == 'Solve' for o, _ in h):
+                hs.add(h)
+    finally:
+        tlc.cleanup(wd)
+    hs = sorted(hs)
+    report.extra['reclimit_behaviours_in_model'] = len(hs)
+    if tier == 'quick':
+        # one behaviour of every (nesting shape, set of solve outcomes) stratum + a seeded fill
+        rng = common.rng('C20rl')
+        groups = {}
+        for h in hs:
+            groups.setdefault(('/'.join(a for o, a in h if o == 'Enter'), '/'.join(sorted(set(a for o, a in h if o == 'Solve')))), []).append(h)
+        pick = [rng.choice(groups[k]) for k in sorted(groups)]
+        rest = [h for h in hs if h not in set(pick)]
+        hs = pick + rng.sample(rest, min(150, len(rest)))
+    return [list(h) for h in hs]
+
+
 def run(report, tier):
+    for part in histrun.parallel(reclimit_chunk, reclimit_histories(report, tier), chunk=12):
+        report.merge(part)
     histrun.model_check(report)
     scheds = [b for b in schedrun.schedules(report) if any(e['e'] == 'raise' for e in b['sched'])]
     if tier == 'quick':
@@ -146,5 +271,8 @@ def run(report, tier):
              'FloatingPointError, MemoryError, KeyboardInterrupt} x first entry / SLSQP retry in progress); each is replayed with the fault '
              'injected at the solver entry and at the k-th fun / jac / hess / constraint fun / constraint jac evaluation of the real '
              'solver; afterwards: warnings.showwarning identity, recursion limit, outcome (FAILED solution or the propagated exception) and '
-             'the next solve against a fresh-problem baseline; build-stage faults likewise. All executions are validated against TraceSolve.tla.',
+             'the next solve against a fresh-problem baseline; build-stage faults likewise. All executions are validated against TraceSolve.tla. '
+             'RecLimit.tla (C20_LimitRestored): every behaviour of nested increased_recursion_limit entries - fresh context objects and one kept object '
+             'used as a decorator on a self-calling routine - with solves that succeed, fail or let a BaseException through is replayed; the limit '
+             'is checked before every step and after the outermost exit.',
         exhaustive=True)
